@@ -9,7 +9,7 @@ callback fires, no holding node still contains an element carrying the entry (ar
 emitted, not dropped) and no consumer invocation that received it is unfinished; callbacks of
 elements whose processing raised never fire.
 """
-from .. import asynccheck as ac, graphcheck
+from .. import asynccheck as ac, graphcheck, vloop
 from . import _async_common as A
 from .c02 import corr_modules, lean_extra
 
@@ -31,6 +31,15 @@ CORPUS_A = [
              {"op": "sinkdone", "tok": 0}, {"op": "sinkdone", "tok": 1}]},
     {"mode": "async", "flavour": "coro", "nodes": [{"kind": "source", "ups": []}, {"kind": "sink", "mode": "async", "ups": [0]}],
      "ops": [{"op": "emit", "node": 0, "val": 1, "md": [{"tag": 1, "ref": 1}]}, {"op": "sinkdone", "tok": 0}]},
+    # a consumer that fails before its first suspension point (the awaitable it returns has already failed) keeps the element's
+    # references for good: the completion callback of a failed element never fires
+    {"mode": "async", "flavour": "future", "nodes": [{"kind": "source", "ups": []}, {"kind": "sink", "mode": "async", "ups": [0], "prefail": [2, 0]}],
+     "ops": [{"op": "emit", "node": 0, "val": 2, "md": [{"tag": 1, "ref": 1}]}, {"op": "sinkfail", "tok": 0},
+             {"op": "emit", "node": 0, "val": 3, "md": [{"tag": 2, "ref": 2}]}, {"op": "sinkdone", "tok": 1}]},
+    {"mode": "async", "flavour": "tornado", "nodes": [{"kind": "source", "ups": []}, {"kind": "map", "f": ["inc"], "ups": [0]},
+                                                       {"kind": "sink", "mode": "async", "ups": [1], "prefail": [3, 1]}, {"kind": "sink", "mode": "async", "ups": [1]}],
+     "ops": [{"op": "emit", "node": 0, "val": 3, "md": [{"tag": 1, "ref": 1}]}, {"op": "sinkfail", "tok": 0}, {"op": "sinkdone", "tok": 1},
+             {"op": "emit", "node": 0, "val": 4, "md": [{"tag": 2, "ref": 2}]}, {"op": "sinkdone", "tok": 2}, {"op": "sinkdone", "tok": 3}]},
 ]
 CORPUS_B = [
     {"mode": "async", "flavour": "future", "nodes": [{"kind": "source", "ups": []}, {"kind": "rate_limit", "interval": 1, "ups": [0]},
@@ -53,9 +62,11 @@ def run(ctx):
     for m in corr_modules():
         m.run(ctx, "C04", 40 if not ctx.thorough() else 1500)
     dask_boundary(ctx)
+    custom_node_cases(ctx)
     ctx.coverage["rule"] = ("(A) graph-family generator, both modes, 15% failing functions / failing consumers, every emission with a fresh counter; "
                             "(B) asynchronous pipelines over all holding node types incl. latest, every emission with a fresh counter with callback; "
-                            "(C) scatter()...gather() segments of the C20 family on the in-process Dask cluster (await / buffer / concurrent producers), every input with a counter. "
+                            "(C) scatter()...gather() segments of the C20 family on the in-process Dask cluster (await / buffer / concurrent producers), every input with a counter; "
+                            "(D) a user-defined coroutine node below each holding node type, every input with a counter. "
                             "Non-trivial as in C01/C02.")
     ctx.assumptions += ["'derived from' = carries the element's metadata entry (flatten attaches it to the last piece only, by design)",
                         "holders are evaluated when the loop has settled after the operation during which the callback fired"]
@@ -80,11 +91,88 @@ def dask_boundary(ctx, cases=None):
             ctx.failure("failed-callback:dask", "the callback of an element whose emit failed fired: %r / %r" % (dsk["fired"], dsk["outcomes"]), {"dask": c})
 
 
+CUSTOM_HOLDERS = ("buffer", "rate_limit", "delay", "timed_window", "map_async", "latest")
+
+
+def custom_node_cases(ctx, cases=None):
+    """(D) a user-defined node (Stream subclass, the documented extension point) whose update() returns an awaitable and which keeps
+    no reference of its own, placed directly below a node that holds an element across the delivery it starts (buffer, rate_limit,
+    delay, timed_window, map_async, latest): the element is 'being handled by a downstream node' until that awaitable has finished, so
+    the holder's reference must last that long and the callback must not fire before.  Judged by the property statement alone."""
+    from streamz import Stream, RefCounter
+    from tornado.ioloop import IOLoop
+    from .. import graphlib
+    if cases is None:
+        cases = [{"custom_node": k, "n": n} for k in CUSTOM_HOLDERS for n in (1, 3)]
+    for case in cases:
+        kind, n = case["custom_node"], case["n"]
+        log = []
+
+        async def main(loop, kind=kind, n=n, log=log):
+            pend = []
+
+            class Raw(Stream):
+                def update(self, x, who=None, metadata=None):
+                    fut = loop.create_future()
+                    pend.append((x, fut))
+                    log.append(("handling", x if not isinstance(x, tuple) else list(x)))
+                    return fut
+            src = Stream(asynchronous=True, loop=IOLoop.current())
+
+            async def ident(x):
+                return x
+            h = {"buffer": lambda: src.buffer(4), "rate_limit": lambda: src.rate_limit(0.5), "delay": lambda: src.delay(0.5),
+                 "timed_window": lambda: src.timed_window(0.5), "map_async": lambda: src.map_async(ident),
+                 "latest": lambda: src.latest()}[kind]()
+            raw = Raw(h)          # kept alive: downstreams are held weakly
+            await vloop.settle(loop)
+            for i in range(n):
+                rc = RefCounter(cb=lambda i=i: log.append(("fire", i)), loop=graphlib.ImmediateLoop())
+                r = src.emit(i, metadata=[{"ref": rc}])
+                await vloop.settle(loop)
+                del r, rc
+            for _ in range(3 * n + 3):
+                await vloop.advance(0.5, loop)
+                await vloop.settle(loop)
+                if pend:
+                    x, fut = pend.pop(0)
+                    log.append(("handled", x if not isinstance(x, tuple) else list(x)))
+                    fut.set_result(None)
+                    await vloop.settle(loop)
+        vloop.run(main)
+        ctx.count("custom-node:" + kind)
+        handled = [e[1] for e in log if e[0] == "handled"]
+        flat = [y for x in handled for y in (x if isinstance(x, list) else [x])]
+        ctx.case(case, nontrivial=len(flat) >= 1)
+        bad = None
+        for pos, e in enumerate(log):
+            if e[0] != "fire":
+                continue
+            i = e[1]
+            started = [k for k, f in enumerate(log[:pos]) if f[0] == "handling" and (f[1] == i or (isinstance(f[1], list) and i in f[1]))]
+            done = [k for k, f in enumerate(log[:pos]) if f[0] == "handled" and (f[1] == i or (isinstance(f[1], list) and i in f[1]))]
+            if kind == "latest" and not started:
+                continue                 # latest drops superseded elements: their callback fires when they are dropped
+            if not done:
+                bad = (i, "before the node below had started on it" if not started else "while the node below was still handling it")
+                break
+        if bad:
+            ctx.failure("early-callback:custom-node", "source -> %s -> user-defined coroutine node, %d elements with a counter each: the callback of "
+                        "element %d fired %s (events %r)" % (kind, n, bad[0], bad[1], log), case,
+                        oracle="the callback never fires while an element derived from the input is being handled by a downstream node")
+        elif sorted(flat) != list(range(n)) and kind != "latest":
+            ctx.failure("early-callback:custom-node-lost", "source -> %s -> user-defined coroutine node: elements handled %r of %d" % (kind, handled, n), case)
+
+
 def replay(ctx, data):
     ctx.audit(extra_modules=lean_extra("C04"))
     case = data["case"]
     if "dask" in case:
         dask_boundary(ctx, [case["dask"]])
+        ctx.coverage["rule"] = "replay of one recorded case"
+        return
+    if "custom_node" in case:
+        custom_node_cases(ctx, [case])
         ctx.coverage["rule"] = "replay of one recorded case"
         return
     if any(op["op"] in ("advance", "settle", "jobdone", "jobfail") for op in case["ops"]) or any(n["kind"] in ac.HOLDING for n in case["nodes"]):
